@@ -561,7 +561,7 @@ func (w *World) call(f *Func, ft reflect.Type, args []reflect.Value) []reflect.V
 		copy(out[ei+1:], out[ei:])
 		out[ei] = ev
 	}
-	if f.Reenter && f.Role == RoleCtor && fault == FaultNone {
+	if f.Reenter && f.Role != RoleInv && fault == FaultNone {
 		w.reenter(f)
 	}
 	w.Open = w.Open[:len(w.Open)-1]
